@@ -34,8 +34,6 @@ Definition bits_set (bits : list N) (idx : N) : list N :=
 Definition bits_isset (bits : list N) (idx : N) : bool :=
   N.land (N.shiftr (nthN bits (byte_addr idx) 0) (idx mod 8)) 1 =? 1.
 
-Definition seqN (n : N) : list N := map N.of_nat (seq 0 (N.to_nat n)).
-
 Definition bl_h (b : bloom) (hash : N) : N := shr64 hash (bl_shift b).
 Definition bl_l (b : bloom) (hash : N) : N := shr64 (shl64 hash (bl_shift b)) (bl_shift b).
 Definition bl_pos (b : bloom) (hash i : N) : N :=
